@@ -8,7 +8,7 @@ LEVEL = 'model_checking'
 def run(tier, t0):
     acc = common.Acc()
     cc.explore('C08', tier, acc)
-    rule = ('BFS over antichains of cells by remove(x)/split(x) edits from the bases listed in notes, plus every antichain of <= 4 (quick) / 5 (thorough) cells over a 38-cell menu and the cascade spines listed in notes (1..30 merging passes in one call); for every state also up to 2x5 overlapping variants (parent, face ancestor, '
+    rule = ('BFS over antichains of cells by remove(x)/split(x) edits from the bases listed in notes, plus every antichain of <= 4 (quick) / 5 (thorough) cells over a 38-cell menu the cascade spines listed in notes (1..30 merging passes in one call) and the two-level sibling blocks listed in notes (every combination of absent / whole / split / first-child-only / all-but-last children below a grandparent); for every state also up to 2x5 overlapping variants (parent, face ancestor, '
             'first child, all-but-first children, a grandchild added); each list is compacted by the real compact (3 orders/duplications) and the covered region compared with the input '
             'through the canonical form, and literally through uncompact to the finest level when that has <= 1024 cells; non-trivial = states that merge or overlap')
     return common.finish(PID, LEVEL, tier, acc, t0, rule, [
